@@ -724,6 +724,23 @@ pub fn cachedb_read_policy() -> String {
     let other = Address::repeat_byte(0x77);
     let m = db.storage(other, one).unwrap();
     out += &format!("[storage uncached missing got={} want=0{}] ", m, if m == U256::ZERO { "" } else { " MISMATCH" });
+    // account info: a cached account answers itself (absent iff NotExisting), an uncached one is the wrapped database's
+    {
+        let infox = AccountInfo { nonce: 9, balance: U256::from(42), code_hash: revm::primitives::KECCAK_EMPTY, code: None };
+        for (sn, st, want_some) in [("NotExisting", AccountState::NotExisting, false), ("Touched", AccountState::Touched, true), ("StorageCleared", AccountState::StorageCleared, true), ("None", AccountState::None, true)] {
+            let mut db = CacheDB::new(InnerRef);
+            db.accounts.insert(CALLER, DbAccount { info: infox.clone(), account_state: st, storage: Default::default() });
+            let r = db.basic_ref(CALLER).unwrap();
+            let m = db.basic(CALLER).unwrap();
+            let ok = r == m && r.is_some() == want_some && (r.is_none() || r == Some(infox.clone()));
+            out += &format!("[basic_ref state={} some={}{}] [info state={} some={}{}] ", sn, r.is_some(), if ok { "" } else { " MISMATCH" }, sn, r.is_some(), if ok { "" } else { " MISMATCH" });
+        }
+        let db = CacheDB::new(InnerRef);
+        let r = db.basic_ref(CALLER).unwrap();
+        let z = db.basic_ref(Address::repeat_byte(0x77)).unwrap();
+        let ok = matches!(&r, Some(i) if i.nonce == 1 && i.balance == U256::from(5)) && z.is_none();
+        out += &format!("[basic_ref uncached existing={} missing={}{}] ", r.is_some(), z.is_some(), if ok { "" } else { " MISMATCH" });
+    }
     // contract code: read through, repeated read, cached entry wins
     {
         let h = B256::repeat_byte(0xc0);
